@@ -402,6 +402,24 @@ theorem level_eq_steady_add_deviation (xbar : nb → K) (hbar : xbar = T *ᵥ xb
     conv_rhs => rw [hbar]
     abel
 
+/-- The same for a **balanced-growth steady path** `ξ̄[t+1] = T ξ̄[t] + K` (non-flat models: steady-state levels with non-zero
+change): the level simulation from `ξ̄[0] + d0` is `ξ̄[t]` plus the deviation simulation from `d0`, in every period. -/
+theorem level_eq_steadypath_add_deviation (xbar : ℕ → nb → K) (hbar : ∀ t, xbar (t + 1) = T *ᵥ xbar t + Kc)
+    (d0 : nb → K) (u : ℕ → nu → K) (imp : ℕ → nb → K) (t : ℕ) :
+    path T Kc P (xbar 0 + d0) u imp t = xbar t + path T 0 P d0 u imp t := by
+  induction t with
+  | zero => rfl
+  | succ t ih =>
+    rw [path, path, ih, Matrix.mulVec_add, hbar t]
+    abel
+
+/-- a shock-free level simulation started on the steady path stays on it -/
+theorem steady_path_reproduced (xbar : ℕ → nb → K) (hbar : ∀ t, xbar (t + 1) = T *ᵥ xbar t + Kc) (t : ℕ) :
+    path T Kc P (xbar 0) (fun _ => 0) (fun _ => 0) t = xbar t := by
+  induction t with
+  | zero => rfl
+  | succ t ih => rw [path, ih, hbar t]; simp
+
 /-- `_simulate_measurement`: `y = Z ξ + D + H w` -/
 def measure (Z : Matrix ny nb K) (Dm : ny → K) (Hm : Matrix ny nw K) (x : nb → K) (w : nw → K) : ny → K :=
   Z *ᵥ x + Dm + Hm *ᵥ w
